@@ -1329,6 +1329,38 @@ def unroll_small_lists(modules, known, rep):
                     break
 
 
+def drop_ascii_fast_path(modules, known, rep):
+    """a new `if s.isascii(): t = s.encode('ascii') else: <... t = s.encode('latin-1') ...>` is its else arm: for an ASCII string the
+    latin-1 encoding is the same bytes and cannot fail"""
+    for rel, sc, fn in all_functions(modules):
+        kh = _known_hashes(known, rel, sc, fn)
+        if kh is None:
+            continue
+        for owner, fld, stmts in list(_blocks(fn)):
+            for i, st in enumerate(stmts):
+                if not (isinstance(st, ast.If) and _is_fresh(st, fn, kh) and isinstance(st.test, ast.Call) and isinstance(st.test.func, ast.Attribute)
+                        and st.test.func.attr == "isascii" and isinstance(st.test.func.value, ast.Name) and not st.test.args and len(st.body) == 1 and st.orelse):
+                    continue
+                sname = st.test.func.value.id
+                a = st.body[0]
+                if not (isinstance(a, ast.Assign) and len(a.targets) == 1 and isinstance(a.targets[0], ast.Name) and isinstance(a.value, ast.Call)
+                        and isinstance(a.value.func, ast.Attribute) and a.value.func.attr == "encode" and ast.unparse(a.value.func.value) == sname
+                        and len(a.value.args) == 1 and isinstance(a.value.args[0], ast.Constant) and str(a.value.args[0].value).lower() in ("ascii", "us-ascii")
+                        and not a.value.keywords):
+                    continue
+                t = a.targets[0].id
+                wide = [x for b in st.orelse for x in ast.walk(b) if isinstance(x, ast.Assign) and len(x.targets) == 1 and isinstance(x.targets[0], ast.Name)
+                        and x.targets[0].id == t and isinstance(x.value, ast.Call) and isinstance(x.value.func, ast.Attribute) and x.value.func.attr == "encode"
+                        and ast.unparse(x.value.func.value) == sname and len(x.value.args) == 1 and isinstance(x.value.args[0], ast.Constant)
+                        and str(x.value.args[0].value).lower() in ("latin-1", "latin1", "iso-8859-1", "iso8859-1", "l1", "utf-8", "utf8") and not x.value.keywords]
+                stores = [x for b in st.orelse for x in ast.walk(b) if isinstance(x, ast.Name) and x.id == t and isinstance(x.ctx, ast.Store)]
+                if len(wide) != 1 or len(stores) != 1:
+                    continue
+                stmts[i:i + 1] = st.orelse
+                rep.other.append(f"ASCII fast path of `{t}` in {fn.name} read as the general encoding")
+                break
+
+
 def fold_constant_tests(modules, known, rep):
     """`if` statements whose test the earlier passes have turned into a constant (`None is not None and ...` after a default argument
     was put in) are the branch that is taken; a lone `pass` left among other statements goes."""
